@@ -21,7 +21,7 @@ CASE_TIMEOUT = 30
 RULE = (
     "n in 2..6 flows started by main; flow i: [@loop(L1|NEW)] [priority p in {1.0,0.5,0.1}] match Ev(subset of a=1,b=2,c=3 "
     "[one value wrong => does not fit]) then start UtteranceBotAction(script=A|B|C) or GestureBotAction(gesture=A|B); "
-    "direct or wrapped one level down (all flows of a case use the same depth); in one direct case of three a second round follows: the co-winners "
+    "direct or wrapped one level down (all flows of a case use the same depth); some flows start their action through a head fork (`when <Action>`), in a quarter of those cases a supervisor flow in its own loop stops one competitor with `send StopFlow` on the same event; in one direct case of three a second round follows: the co-winners "
     "share one action object, its Finished event is fed and they compete again on `match $a.Finished()` (only priorities differ) with second actions; event Ev(a=1,b=2,c=3); tie-break index list "
     "drawn. Non-trivial = some loop has >=3 fitting flows with >=2 distinct scores, or an exact tie between different "
     "actions, or >=2 loops with fitting flows; distinct by case."
@@ -69,7 +69,15 @@ def _case(draw):
         for f in flows:
             f["loop"] = None
         stage2 = [draw(st.integers(0, len(ACTIONS) - 1)) for _ in flows]
-    return {"flows": flows, "wrapped": wrapped, "stage2": stage2, "choices": draw(st.lists(st.integers(0, 5), min_size=1, max_size=4))}
+    case = {"flows": flows, "wrapped": wrapped, "stage2": stage2, "choices": draw(st.lists(st.integers(0, 5), min_size=1, max_size=4))}
+    if not wrapped and stage2 is None:
+        # some flows reach their action through a head fork (`when <Action>`): the forked head must keep the score of the match
+        case["via_when"] = [draw(st.integers(0, 2)) == 0 for _ in flows]
+        # a supervisor (own loop) reacts to the same event by stopping one flow: a flow stopped in the same processing step
+        # no longer takes part in the competition
+        if draw(st.integers(0, 3)) == 0:
+            case["stop"] = draw(st.integers(0, len(flows) - 1))
+    return case
 
 
 def strategy(tier):
@@ -91,10 +99,17 @@ def program(case):
             if case.get("stage2"):
                 t2, k2, v2 = ACTIONS[case["stage2"][i]]
                 second = ["  match $a.Finished()", f'  start {t2}({k2}="{v2}2")']
-            lines += deco + [f"flow c{i}"] + prio + [f"  match Ev({args})", f'  start {typ}({key}="{val}") as $a'] + second + [f"  match Never{i}()", ""]
+            if (case.get("via_when") or [False] * len(case["flows"]))[i]:
+                lines += deco + [f"flow c{i}"] + prio + [f"  match Ev({args})", f'  when {typ}({key}="{val}")', f"    send ActionDone{i}()", f"  match Never{i}()", ""]
+            else:
+                lines += deco + [f"flow c{i}"] + prio + [f"  match Ev({args})", f'  start {typ}({key}="{val}") as $a'] + second + [f"  match Never{i}()", ""]
+    if case.get("stop") is not None:
+        lines += ['@loop("supervision")', "flow supervisor", "  match Ev()", f'  send StopFlow(flow_id="c{case["stop"]}")', "  match NeverSup()", ""]
     lines.append("flow main")
     for i in range(len(case["flows"])):
         lines.append(f"  start c{i}")
+    if case.get("stop") is not None:
+        lines.append("  start supervisor")
     lines += ["  match Never()", ""]
     return "\n".join(lines)
 
@@ -142,10 +157,15 @@ def prop(case):
     expected_starts_options = []  # per group: list of (action, winners)
     nt = False
     fitting_groups = 0
+    stopped_by_supervisor = case.get("stop")
+    if stopped_by_supervisor is not None:
+        desc += f" | supervisor stops c{stopped_by_supervisor} on the same event"
+        if observed[stopped_by_supervisor] != "stopped":
+            raise Violation("stopflow-ignored", f"{desc}: c{stopped_by_supervisor} is {observed[stopped_by_supervisor]}")
     for g, members in groups.items():
-        fit = [i for i in members if score(flows[i]) > 0]
+        fit = [i for i in members if score(flows[i]) > 0 and i != stopped_by_supervisor]
         for i in members:
-            if i not in fit and observed[i] != "started":
+            if i not in fit and i != stopped_by_supervisor and observed[i] != "started":
                 raise Violation("nonfitting-touched", f"{desc}: c{i} did not fit the event but is {observed[i]}")
         if not fit:
             continue
@@ -228,6 +248,10 @@ def prop(case):
         labels.append("tie-break-used")
     if stage2_done:
         labels.append("round2-on-shared-reference")
+    if any(case.get("via_when") or []):
+        labels.append("action-behind-head-fork")
+    if case.get("stop") is not None:
+        labels.append("competitor-stopped-in-same-step")
     if any(len([1 for o in [flows[i]["action"] for i in m]]) != len({flows[i]["action"] for i in m}) for m in groups.values()):
         labels.append("equal-actions")
     view = {"flows": desc, "started": {f"{k[0]}:{k[1]}": v for k, v in starts.items()}, "status": {f"c{i}": s for i, s in observed.items()}}
